@@ -71,7 +71,9 @@ func (r *Result) NViol() int { r.mu.Lock(); defer r.mu.Unlock(); return len(r.Vi
 
 func (r *Result) SetInfra(format string, a ...any) {
 	r.mu.Lock()
-	if r.Infra == "" {
+	// once the replay has been cut short by a flood of deviations the verdict is decided by them; what
+	// the truncated run can no longer do (read the rest of its cases, ...) is a consequence, not a fault
+	if r.Infra == "" && !(Stopped() && len(r.Violations) > 0) {
 		r.Infra = fmt.Sprintf(format, a...)
 	}
 	r.mu.Unlock()
